@@ -6,6 +6,7 @@ import itertools, os, re, concurrent.futures
 from engine import Check, run_model, run_impl
 import gen_scripts as G, cli, vlib, ptyrun
 
+STD_ = 0x1FFFDF
 PROP_FILES = ["Properties/C09.v"]
 RULE = ("flag lists: every single +NAME / -NAME over the 21 names, random lists (duplicates, both orders), malformed lists (no sign, unknown name, "
         "empty token, trailing comma, over-long token) through the real binary (-d, and -f<list> -v under a pseudo-terminal); one behavioural "
@@ -147,10 +148,30 @@ def main(tier):
         for b in order[:rng.randrange(1, 7)]:
             f |= b; chain.append(f)
         key = next(cid)
+        zz = 0
+        if ci < nchains and rng.random() < 0.15:
+            # the re-enabled opcodes (-z) read their operands under the same MINIMALDATA rule
+            scr = rng.choice([b"\x03\xaa\xbb\xcc\x52\x80", b"\x03\xaa\xbb\xcc\x52\x81", b"\x03\xaa\xbb\xcc\x51\x51\x7f", b"\x57\x52\x96", b"\x02\x07\x00\x52\x97",
+                              b"\x55\x8d", b"\x01\x05\x8e", b"\x02\x01\x00\x02\x02\x00\x95", b"\x51\x02\x02\x00\x98", b"\x03\xaa\xbb\xcc\x02\x02\x00\x80"])
+            st = []; zz = 1; sv = rng.choice((0, 1))
         for j, fl in enumerate(chain):
             i = "%d.%d" % (key, j)
-            cases.append(G.case(i, scr, st, fl, sv, "c"))
+            cases.append(G.case(i, scr, st, fl, sv, "c", zz))
         meta[key] = len(chain)
+    # session-level flags on real spends: SIGPUSHONLY x P2SH on outputs that are / are not pay-to-script-hash, scriptSigs that are / are not push-only
+    import gen_spend as S
+    hx = lambda t: t.encode().hex()
+    P2SH_, SPO = 1, 1 << 5
+    for kind, mut, wn in (("bare-if", "altown", 0), ("bare-if", None, 0), ("bare-fad", None, 0), ("bare-fad", None, 1), ("p2sh", None, 0), ("p2sh-smallint", None, 15),
+                          ("p2pkh", None, 0), ("bare-if", "nosig-true", 0)):
+        for _ in range(1 if tier == "quick" else 6):
+            c = S.build(rng, kind, mutate=mut, wn=wn, ht=1)
+            base = STD_ & ~(1 << 16) & ~P2SH_ & ~SPO
+            for chain in ([base, base | SPO, base | SPO | P2SH_], [base, base | P2SH_, base | P2SH_ | SPO]):
+                key = next(cid)
+                for j, fl in enumerate(chain):
+                    cases.append("spend id=%d.%d tx=%s txin=%s flags=%d cmds=c" % (key, j, hx(c["spend"]), hx(c["fund"]), fl))
+                meta[key] = len(chain)
     diffs = chk.compare("flag-chains", cases, nontrivial=lambda c, il: True)
     for c, il, ml, sl, fl in diffs[:3]:
         chk.violation("chain-model-mismatch", "session under a flag set differs from the model", {"stream": "flag-chains", "case": c, "impl": il[-1:], "model": ml[-1:]})
